@@ -301,6 +301,9 @@ def parse_vspec(path):
         if head == '@unit':
             unit = rest
             i += 1
+        elif head == '@feature':
+            root.append(('feature', rest))
+            i += 1
         elif head == '@raw':
             text, i = block(i + 1)
             stack[-1].append(('raw', rest or 'ghost', text))
@@ -431,12 +434,12 @@ def add_canary(spec, n):
     depth = 0
     ens = None
     nxt = None
-    for t in toks:
+    for k, t in enumerate(toks):
         if t.kind == 'punct' and t.text in '([{':
             depth += 1
         elif t.kind == 'punct' and t.text in ')]}':
             depth -= 1
-        elif depth == 0 and t.kind == 'ident' and t.text in CLAUSE_KW:
+        elif depth == 0 and t.kind == 'ident' and t.text in CLAUSE_KW and not (k and toks[k - 1].text == '.'):
             if t.text == 'ensures' and ens is None:
                 ens = t
             elif ens is not None and nxt is None:
@@ -573,14 +576,27 @@ class Extractor:
                 if BODY_ATTR_DROP.match(a):
                     cuts.append((t.start, toks[e - 1].end))
                     drops.append('D1 attr in body of %s: %s' % (where, a))
+                elif _squash(a) == '#[cfg(rust_nightly)]':
+                    # D5: the stable build is verified: a statement gated on cfg(rust_nightly) is dropped
+                    j = e
+                    while toks[j].text != ';':
+                        if toks[j].text in ('(', '[', '{'):
+                            j = match_close(toks, j)
+                        j += 1
+                    cuts.append((t.start, toks[j].end))
+                    drops.append('D5 cfg(rust_nightly) statement dropped in %s: %s' % (where, norm(body[toks[e].start:toks[j].end])))
+                    e = j + 1
+                elif _squash(a) == '#[cfg(not(rust_nightly))]':
+                    cuts.append((t.start, toks[e - 1].end))
+                    drops.append('D5 cfg(not(rust_nightly)) attribute dropped (statement kept) in %s' % where)
                 else:
                     raise Undecided('unsupported attribute inside %s: %s' % (where, a))
                 k = e
                 continue
             k += 1
         for s, e in reversed(cuts):
-            # keep line structure: replace by spaces
-            body = body[:s] + ' ' * (e - s) + body[e:]
+            # keep line structure: replace by spaces (newlines kept)
+            body = body[:s] + re.sub(r'[^\n]', ' ', body[s:e]) + body[e:]
         return body
 
     OPS = {'%': ('Rem', 'rem', 10), '/': ('Div', 'div', 10), '*': ('Mul', 'mul', 10), '+': ('Add', 'add', 9),
@@ -719,8 +735,9 @@ class Extractor:
         for a in it.attrs:
             res.drops.append('D1 attr on %s: %s' % (qual, a))
         where = '%s (%s)' % (qual, sf.rel)
-        body = self._clean_body(body, res.drops, where)
-        body = self._desugar(body, fs, where, res.drops)
+        if not fs.external_body:
+            body = self._clean_body(body, res.drops, where)
+            body = self._desugar(body, fs, where, res.drops)
         if fs.ret:
             sig = self._name_ret(sig, fs.ret)
         start = out.lineno
@@ -743,7 +760,12 @@ class Extractor:
                 for ln in range(s0, out.lineno):
                     if 'canary__%d()' % (len(res.canary_fns) - 1) in out.lines[ln - 1]:
                         res.canary_lines[ln] = qual
-        segs = self._splice_body(body, fs, where) if not fs.external_body else [(body, False)]
+        if fs.external_body:
+            # A3: assumed contract: signature from the repository, body not verified and replaced
+            res.drops.append('A3 body of %s replaced by unimplemented!() (assumed contract)' % qual)
+            segs = [('{ unimplemented!() }', False)]
+        else:
+            segs = self._splice_body(body, fs, where)
         repo_line = body_line
         seg_maps = []
         pending = ''
@@ -820,7 +842,13 @@ class Extractor:
             dropped = [n for n, _ in fields if n not in keep]
             res.drops.append('D2 struct %s: kept fields %s, dropped %d others' % (d['name'], keep, len(dropped)))
             head = sf.src[toks[it.t0].start:toks[it.body_open].end]
-            text = head + '\n' + ''.join('    %s,\n' % t for n, t in fields if n in keep) + '}'
+            text = head + '\n' + ''.join('    %s,\n' % t for n, t in fields if n in keep)
+            if d.get('phantom'):
+                # A8: lifetimes left unused by the projection are kept alive by a ghost PhantomData field
+                lts = d['phantom'].split(',')
+                text += '    pub _verif_phantom: core::marker::PhantomData<(%s)>,\n' % ', '.join('&%s ()' % l for l in lts)
+                res.drops.append('A8 struct %s: PhantomData field for lifetimes %s' % (d['name'], lts))
+            text += '}'
         else:
             # drop field / variant attributes (D1)
             text = self._drop_inner_attrs(text, res.drops, '%s %s' % (kind, d['name']))
@@ -889,6 +917,10 @@ class Extractor:
         res.unit = unit
         out.add('// GENERATED by vx/extract.py from %s and the working tree of the repository. Do not edit.' % os.path.basename(vspec_path))
         out.add('#![allow(unused_imports, dead_code, unused_variables, unused_mut, unused_parens, unreachable_code, non_camel_case_types, unused_braces)]')
+        for nd in nodes:
+            if nd[0] == 'feature':
+                out.add('#![feature(%s)]' % nd[1])
+        nodes = [nd for nd in nodes if nd[0] != 'feature']
         out.add('use vstd::prelude::*;')
         out.add('verus! {')
 
